@@ -1154,6 +1154,22 @@ func genC12(cw *caseWriter, seed uint64, tier string) {
 		data := []byte("{\"a\":1,\"x\":0.5,\"u\":18446744073709551615}\n{\"a\":300.5,\"x\":0.5,\"u\":18446744073709551615}\n{\"a\":\"n/a\",\"x\":1,\"u\":7}\n{\"a\":2,\"x\":1,\"u\":7}\n")
 		emitStream(cw, "C12", cols, cols, "tolerant", chunk(data, []int{1 << 20}), nil, data, true)
 	}
+	// non-finite floats in the columns of a ROW that is written: as Go values the API stores (a map of them handed to
+	// Export under numeric / string / auto columns, with and without a raw type) and as the texts ParseFloat reads as
+	// non-finite, through importer and exporter: a valid line or nothing — never `NaN` or `+Inf` as a number
+	for _, f := range []string{"numeric", "string", "auto"} {
+		for _, ty := range []string{"none", "f64", "f32", "num", "str"} {
+			to := []colDesc{{name: "a", format: "numeric", ty: "i64"}, {name: "x", format: f, ty: ty}}
+			for _, v := range []interface{}{math.NaN(), math.Inf(1), math.Inf(-1), float32(math.NaN()), float32(math.Inf(1)), float32(math.Inf(-1)), 1.5, float32(2.5)} {
+				v := v
+				emitEmit(cw, "C12", to, func() interface{} { return map[string]interface{}{"a": 1, "x": v} }, true)
+				emitEmit(cw, "C12", to, func() interface{} { return rowOf("a", 1, "x", v) }, true)
+			}
+			for _, txt := range []string{`"NaN"`, `"nan"`, `"Inf"`, `"+Inf"`, `"-Inf"`, `"Infinity"`, `"-infinity"`, `"1e999"`, `1e999`, `"0x1p-2"`, `"1.5"`, `2.5`} {
+				emitLine(cw, "C12", to, to, []byte(`{"a":1,"x":`+txt+`}`), true)
+			}
+		}
+	}
 	// integer magnitudes carried by TEXT (what an untyped Numeric column holds when it was given a string): at and
 	// past the int64 bounds, the uint64 maximum, signed zero, 30 digits
 	for _, t := range []string{"18446744073709551615", "9223372036854775808", "-9223372036854775809", "9223372036854775807", "-0", "0", "123456789012345678901234567890", "1e2", "0.10", "1E+2"} {
